@@ -66,6 +66,49 @@ func runC08(l *core.Ledger) {
 			}
 		}
 	}
+	// B6: a delivery that can wait (for a streaming call that is still running) executes under a
+	// lock that the call paths acquire before they look at their own context
+	{
+		l.Rule("C08-B6", "no call waits, before it observes its own context, for a lock under which a delivery to another (streaming) call can wait: deliveries under responseMut never block, or enqueue registers its router without waiting behind them")
+		waits := map[string]string{}
+		for _, ho := range heldOps {
+			if ho.op.kind != "deliver" {
+				continue
+			}
+			for _, h := range ho.held {
+				if _, seen := waits[h.Field]; !seen {
+					waits[h.Field] = ho.via
+				}
+			}
+		}
+		if eq := findEnqueueFn(l, r); eq != nil {
+			key := fnKey(eq) + "/lock-behind-streaming-delivery"
+			bad := ""
+			var at token.Pos
+			sx.AllInstrs(eq, func(nd sx.Node, in ssa.Instruction) {
+				c, ok := in.(*ssa.Call)
+				if !ok || bad != "" {
+					return
+				}
+				op, isOp := sx.ClassifyLockOp(&c.Call)
+				if !isOp || !op.Acquire {
+					return
+				}
+				fld := ""
+				if fa, isFA := c.Call.Args[0].(*ssa.FieldAddr); isFA {
+					fld = fieldOf(fa.X.Type(), fa.Field).Name()
+				}
+				if via, w := waits[fld]; w {
+					bad, at = fld+" (delivery in "+via+")", c.Pos()
+				}
+			})
+			if bad == "" {
+				l.OK("C08-B6", key, eq.Pos(), "enqueue takes no lock under which a delivery can wait")
+			} else {
+				l.Bad("C08-B6", key, at, "enqueue acquires "+bad+" before its select on the caller's context, and the node's reader holds that lock while it waits for room in the reply channel of a server-stream call that is still running: every other call on that node - whatever its deadline - waits in enqueue until the slow call takes its next reply or completes (bounded by the other call's quorum function and context, not by this call's context)")
+			}
+		}
+	}
 	nops := 0
 	for _, ep := range eps {
 		nops += c08Walk(l, "C08-B1", ep.key, &frame{fn: ep.fn}, ep.ctx)
